@@ -143,6 +143,8 @@ def real_cleanup(req):
 # ----------------------------------------------------------------------------- C18: cache histories
 class _Hist:
     def __init__(self, variant):
+        valeq = variant.endswith('_eq')      # instances that all compare (and hash) equal: identity must still decide
+        variant = variant[:-3] if valeq else variant
         if variant == 'pok':
             class C(object):
                 @modifiers.kwoargs('b')
@@ -172,6 +174,13 @@ class _Hist:
                     return (self, a)
         else:
             raise core.HarnessError(variant)
+        if valeq:
+            class C(C):
+                def __eq__(self, other):
+                    return type(other) is type(self)
+
+                def __hash__(self):
+                    return 1
         self.C = C
         self.inst = {}
         self.wrap = {}
